@@ -85,6 +85,8 @@ type Synth struct {
 	WithPos  bool // give nodes and tokens unique positions
 	PlainTok bool // tokens without free-floating markers
 	Nasty    bool // sometimes put bytes that need quoting into marker values
+	Share    bool // sometimes put ONE node object twice into a list (a tree built by re-using a node: "echo $a, $a")
+	Shared   int  // how many lists got a repeated element
 	Leaves   []ast.Vertex
 }
 
@@ -107,6 +109,8 @@ func (s *Synth) mark(class string) []byte {
 
 var synthIDs = []token.ID{token.T_STRING, token.T_VARIABLE, token.T_LNUMBER, token.T_WHITESPACE, token.T_COMMENT, token.T_IS_GREATER_OR_EQUAL, token.T_INCLUDE, token.ID(';'), token.ID('('), 0}
 
+var synthFFIDs = []token.ID{token.T_WHITESPACE, token.T_COMMENT, token.T_WHITESPACE, token.T_COMMENT, token.T_DOC_COMMENT, token.T_OPEN_TAG, token.T_INLINE_HTML}
+
 func (s *Synth) pos() *position.Position {
 	if !s.WithPos {
 		return nil
@@ -124,7 +128,8 @@ func (s *Synth) Tok(class string) *token.Token {
 			nff = 2
 		}
 		for i := 0; i < nff; i++ {
-			t.FreeFloating = append(t.FreeFloating, &token.Token{ID: synthIDs[3+s.R.Intn(2)], Value: s.mark("F"), Position: s.pos()})
+			// every id the scanner gives to free-floating tokens: the printer must emit them all alike
+			t.FreeFloating = append(t.FreeFloating, &token.Token{ID: synthFFIDs[s.R.Intn(len(synthFFIDs))], Value: s.mark("F"), Position: s.pos()})
 		}
 	}
 	return t
@@ -192,6 +197,10 @@ func (s *Synth) Build(zero ast.Vertex, present []bool) ast.Vertex {
 				l := make([]ast.Vertex, lastList)
 				for k := range l {
 					l[k] = s.Leaf()
+				}
+				if s.Share && lastList >= 2 && s.R.Chance(1, 3) {
+					l[lastList-1] = l[0]
+					s.Shared++
 				}
 				fv.Set(reflect.ValueOf(l))
 			} else if s.R.Chance(1, 3) {
